@@ -21,12 +21,15 @@ func init() {
 		Level: "exploration",
 		Rule: "graphs: every isomorphism class n<=7 (quick) / n<=8 (thorough) x {identity, fixed and seeded relabellings}, every labelled graph n<=5 (6), seeded graphs 9<=n<=13, " +
 			"block forests / cactus graphs built from known pieces up to n=30, named families (K_n, wheels, grids, cages, ...), n=0,1,2; each held as dense, sparse, InducedSubgraph view of a larger host and complement view of the complement; " +
-			"large structured graphs with n in {31,32,33,63..66,100,127..130,200,257} (paths, cycles, stars, K_n, K_a,b, grids, tori, hypercubes, ladders, caterpillars, brooms, a long cycle with trees, disjoint unions, block forests with known blocks) as dense, sparse and view, with sampled Distance pairs / ConnectedComponent vertices and closed forms cross-checked against the polynomial oracles. " +
+			"large structured graphs with n in {31,32,33,63..66,100,127..130,200,257} (paths, cycles, stars, K_n, K_a,b, grids, tori, hypercubes, ladders, caterpillars, brooms, a long cycle with trees, disjoint unions, block forests with known blocks) as dense, sparse and view, with sampled Distance pairs / ConnectedComponent vertices and closed forms cross-checked against the polynomial oracles; " +
+			"call sequences in one process on graphs with n in {300,511..513,1000,1023..1025,2048,4096} (thorough: also 1026,1500,2047,2049,3000,4095,4097) and seeded sizes 1024..2500 (cycles with a tail, relabelled cycles, cycles with a chord, paths, trees of four shapes, trees plus edges, grids, prisms, Q10/Q11, stars, sparse random graphs, disjoint unions) mixed with graphs of 0..300 vertices: " +
+			"scripted sequences per function f (f twice on the same graph, then on a disconnected / a small / another large graph of the same size / the empty graph and back), seeded closed walks through every ordered pair of the 11 functions (and of the 5 search functions) where the graph of a step is that of the step before or any other of the session, large graphs as dense and as view after each other; every single result of a sequence is judged against adjacency-list oracles (induced counters with maxLength<=4, NumberOfCycles where the count is known by construction). " +
 			"Every value of Distance (all pairs), Eccentricity, Diameter, Radius, Girth, ConnectedComponent (all v), ConnectedComponents, BiconnectedComponents, NumberOfCycles, NumberOfInducedCycles/Paths (every maxLength in -1..n+1, entries up to the bound) " +
 			"is compared with definition oracles computed on the base graph and carried through the relabelling. non-trivial = n>=4 and m>=2; distinct = (labelled graph, representation)",
 		Assumptions: []string{
 			"oracles (harness code, no library code): BFS distances, components by search, cut vertices by vertex deletion, blocks as classes of edges not separated by any single vertex, girth by edge deletion, cycle / induced cycle / induced path counts by exhaustive path extension; cross-checked against oracle/brute (Floyd-Warshall, cycle enumeration) and closed formulas in the self-check and again on every base graph with n<=8",
 			"library graphs are built by filling the exported fields of DenseGraph / SparseGraph (no constructor under test); the InducedSubgraph and Complement views are first checked to present the intended adjacency (else the case is skipped and counted)",
+			"call sequences: graphs in harness-owned adjacency lists; expected values by one BFS per source, component search, cut vertices and blocks by vertex deletion, girth by edge deletion, induced paths / cycles with at most 4 edges by path extension; compared with the closed forms of each construction before the library is judged and with the oracles of the small workloads in the self-check; a call of the property's functions may not depend on earlier calls in the same process",
 			"conventions taken from the documentation: Distance -1 without a path; Eccentricity all -1, Diameter and Radius -1 when disconnected (0 for n=0); Girth -1 when acyclic; result index = length for the counters; NumberOfInducedPaths entry 0 = n; entries beyond maxLength are not judged; order of components / blocks / articulation vertices is not judged, blocks must be sorted lists, isolated vertices may or may not be singleton blocks (all or none)",
 		},
 		Run:            run,
@@ -38,6 +41,15 @@ func init() {
 			"calls:Distance", "calls:Eccentricity", "calls:Diameter", "calls:Radius", "calls:Girth", "calls:ConnectedComponent", "calls:ConnectedComponents",
 			"calls:BiconnectedComponents", "calls:NumberOfCycles", "calls:NumberOfInducedCycles", "calls:NumberOfInducedPaths",
 			"relabelled_cases", "oracle_crosschecks", "entries_beyond_bound_not_judged", "large:graphs", "large:n=257", "large:calls:Distance",
+			// call sequences on graphs of hundreds to thousands of vertices (huge.go)
+			"huge:graphs_n>=512", "huge:graphs_n>=1024", "huge:graphs_n>=2048", "huge:graphs_n>=4096", "huge:rep:sparse", "huge:rep:dense", "huge:rep:view",
+			"huge:closed_forms_checked_against_the_oracles", "seq:sessions", "seq:steps",
+			"seq:same_function_same_graph_again", "seq:same_function_other_graph", "seq:other_function_same_graph", "seq:other_function_other_graph",
+			"seq:large_after_small", "seq:small_after_large", "seq:large_after_larger", "seq:large_after_smaller_large", "seq:large_after_other_graph_of_equal_size",
+			"seq:representation_changes", "max:seq:distinct_ordered_function_pairs_in_one_session",
+			"seq:repeat_n>=1024:Distance", "seq:repeat_n>=1024:Eccentricity", "seq:repeat_n>=1024:Diameter", "seq:repeat_n>=1024:Radius", "seq:repeat_n>=1024:Girth",
+			"seq:repeat_n>=1024:ConnectedComponent", "seq:repeat_n>=1024:ConnectedComponents", "seq:repeat_n>=1024:BiconnectedComponents",
+			"seq:repeat_n>=1024:NumberOfCycles", "seq:repeat_n>=1024:NumberOfInducedCycles", "seq:repeat_n>=1024:NumberOfInducedPaths",
 		},
 	})
 }
@@ -1072,6 +1084,9 @@ func run(c *engine.Ctx) {
 
 	// 6. large structured graphs around the sizes 32, 64, 128, 256
 	largeWorkload(c)
+
+	// 7. sequences of calls in one process on graphs with hundreds to thousands of vertices
+	hugeWorkload(c)
 }
 
 var polyaCount = []int64{1, 1, 2, 4, 11, 34, 156, 1044, 12346}
